@@ -285,7 +285,7 @@ func init() {
 	registerRule("F8e", "the MPEG-TS join covers every track: joinTrackProcessors pushes the end marker to the iteration variable of a range over the trackProcessors map", ruleF8e)
 	registerRule("T34", "a byte range is printed with the start it has: in the encoders of pkg/playlist the Start of a primitives.ByteRange is the element's own ByteRangeStart field, read directly", ruleT34)
 	registerRule("F7x", "the download mode is chosen once: runTraditional and runLowLatency are called by the downloader's run only (a fallback from one to the other restarts from the first playlist of the session)", ruleF7x)
-	registerRule("K5c", "a failed initialisation is fatal: where client code tests the error of one of its initialize… functions, every path from the failing side to a return returns a non-nil error", ruleK5c)
+	registerRule("K5c", "a failed step is fatal: where client code tests the error of one of its initialize… or download… functions, every return dominated by the failing side returns that error (or another one), and the failing side does not lead back to the same call", ruleK5c)
 	registerRule("T35", "a decoder keeps every value of a free-form attribute: in the unmarshal functions of pkg/playlist the store of a string into a string field is not control dependent on a comparison of that same string with a constant", ruleT35)
 }
 
@@ -709,11 +709,28 @@ func ruleK5c(c *Ctx) *RuleResult {
 				return
 			}
 			g := call.Call.StaticCallee()
-			if g == nil || !InLib(g) || !strings.HasPrefix(g.Name(), "initialize") || g.Signature.Results().Len() != 1 || !types.Identical(g.Signature.Results().At(0).Type(), types.Universe.Lookup("error").Type()) {
+			if g == nil || !InLib(g) || !(strings.HasPrefix(g.Name(), "initialize") || strings.HasPrefix(g.Name(), "download")) || g.Signature.Results().Len() == 0 {
+				return
+			}
+			nres := g.Signature.Results().Len()
+			if !types.Identical(g.Signature.Results().At(nres-1).Type(), types.Universe.Lookup("error").Type()) {
 				return
 			}
 			if fn.Signature.Results().Len() == 0 {
 				return
+			}
+			// the error value: the call itself, or the last component of its tuple
+			var errV ssa.Value = call
+			if nres > 1 {
+				errV = nil
+				for _, ref := range *call.Referrers() {
+					if ex, isEx := ref.(*ssa.Extract); isEx && ex.Index == nres-1 {
+						errV = ex
+					}
+				}
+				if errV == nil {
+					return
+				}
 			}
 			conds := ifsOnV(fn, func(v ssa.Value) bool {
 				bo, ok := v.(*ssa.BinOp)
@@ -721,7 +738,7 @@ func ruleK5c(c *Ctx) *RuleResult {
 					return false
 				}
 				k, isK := bo.Y.(*ssa.Const)
-				return isK && k.IsNil() && bo.X == ssa.Value(call)
+				return isK && k.IsNil() && bo.X == errV
 			})
 			for _, ci := range conds {
 				n++
@@ -744,15 +761,21 @@ func ruleK5c(c *Ctx) *RuleResult {
 						continue
 					}
 					if ret, ok := b.Instrs[len(b.Instrs)-1].(*ssa.Return); ok && !isErrorReturn(fn, ret) {
-						if rv := retVal(ret, len(ret.Results)-1); rv != ssa.Value(call) {
+						if rv := retVal(ret, len(ret.Results)-1); rv != errV {
 							bad = c.Pos(posOf(ret))
 						}
+					}
+				}
+				// the failing side must not come round to the same call again (a retry hides the failure)
+				if bad == "" && seen[call.Block().Index] && fn.Blocks[start].Dominates(fn.Blocks[start]) {
+					if reachableBlocks(fn, start, nil, nil)[call.Block().Index] {
+						bad = c.Pos(call.Pos()) + " (the same call, again)"
 					}
 				}
 				if bad == "" {
 					r.ok(key, c.Pos(call.Pos()), FuncName(fn), what, "the failing side returns the error")
 				} else {
-					r.fail(key, c.Pos(call.Pos()), FuncName(fn), what, "on the failing side the return at "+bad+" yields no error: the half-initialised processor (fields assigned before the failing step) is taken for an initialised one by the next segment — a nil dereference inside a client goroutine")
+					r.fail(key, c.Pos(call.Pos()), FuncName(fn), what, "on the failing side "+bad+" is reached without an error being returned: the failure is hidden from Wait (retried or swallowed); for an initialisation, the half-initialised processor (fields assigned before the failing step) is taken for an initialised one by the next segment — a nil dereference inside a client goroutine")
 				}
 			}
 		})
